@@ -6,6 +6,7 @@ CONSTANTS
   MaxLong = 2
   MaxShort = 1
   MaxSnap = 1
+  StableUpTo = 20
   MaxLen = 1
   Large = 99
 INVARIANT Emit
